@@ -4,10 +4,12 @@
 // (a synchronous first call, pipelined singles and batches, a client-side-cached read with a second
 // caller waiting on the same cache flight, a Receive on a subscription, a blocking BLPOP on its own
 // connection).  At the n-th command the server receives after the handshakes, one of
-//   before   the connection is closed instead of executing the command,
-//   after    the command is executed and the connection closed without a reply,
-//   mid      the connection is closed after the first 3 bytes of the reply,
-//   close    the client's Close() is called
+//
+//	before   the connection is closed instead of executing the command,
+//	after    the command is executed and the connection closed without a reply,
+//	mid      the connection is closed after the first 3 bytes of the reply,
+//	close    the client's Close() is called
+//
 // happens.  The case enumerates n and the mode.
 //
 // Direct oracle: every call returns within the bound with a non-nil error or with its own reply (tag
@@ -123,6 +125,7 @@ func run(ci any) (res obs.Result) {
 
 	var cl rueidis.Client
 	var fired atomic.Bool
+	var faultCmd atomic.Value // the command the fault hit
 	var ncmd int32
 	closeReq := make(chan struct{}, 1)
 	s.Fault = func(fc *fakeredis.Conn, cseq int, argv []string) fakeredis.Action {
@@ -139,6 +142,7 @@ func run(ci any) (res obs.Result) {
 			return fakeredis.Action{}
 		}
 		fired.Store(true)
+		faultCmd.Store(strings.Join(argv[:min(len(argv), 2)], " "))
 		switch c.Mode {
 		case "before":
 			return fakeredis.Action{CloseBefore: true}
@@ -339,20 +343,41 @@ func run(ci any) (res obs.Result) {
 	}
 	// tear every server-side connection down: whatever is still pending must come back now
 	later := ""
+	followUpsUsed := 0
 	fired.Store(true) // the enumerated fault point may lie beyond the script: no fault from here on
 	if len(fails) == 0 && c.Mode != "close" && c.Mode != "dialclose" {
-		// a later call succeeds on a fresh connection (before tearing the rest down)
-		id := int(atomic.AddInt32(&nextID, 1))
-		tag := pipe.Tag(id, 0)
-		calls[id] = &pipe.Call{ID: id}
-		var r rueidis.RedisResult
-		okc := make(chan struct{})
-		go func() { r = cl.Do(bg, cl.B().Echo().Message(tag).Build()); close(okc) }()
-		if !waitFor(okc, bound) {
-			dump()
-			fails = append(fails, "a call issued after the failure did not return")
-		} else if v, e := r.ToString(); e != nil || v != tag {
-			later = fmt.Sprintf("a call issued after the connection failure returned (%q, %v) instead of succeeding on a fresh connection", v, e)
+		// A later call succeeds on a fresh connection (before tearing the rest down).  "Later" means: after the client
+		// has noticed the failure.  The mux replaces a wire lazily, when a call on it returns a transport error and the
+		// wire has latched its error; a call issued while the server's close is still on its way to the reader (the fault
+		// may have hit the SUBSCRIBE of the pending Receive, which no caller of this script waits for), or in the short
+		// window between the reader handing the error to a caller and _exit latching it, legitimately returns that
+		// error once more.  So: follow-up calls are issued until one succeeds; each must return promptly, a reply must be
+		// the call's own, and one of the first few must succeed.
+		const followUps = 6
+		for attempt := 0; attempt < followUps; attempt++ {
+			id := int(atomic.AddInt32(&nextID, 1))
+			tag := pipe.Tag(id, 0)
+			calls[id] = &pipe.Call{ID: id}
+			var r rueidis.RedisResult
+			okc := make(chan struct{})
+			go func() { r = cl.Do(bg, cl.B().Echo().Message(tag).Build()); close(okc) }()
+			if !waitFor(okc, bound) {
+				dump()
+				fails = append(fails, "a call issued after the failure did not return")
+				break
+			}
+			v, e := r.ToString()
+			if e == nil && v == tag {
+				later = ""
+				followUpsUsed = attempt + 1
+				break
+			}
+			if e == nil {
+				later = fmt.Sprintf("a call issued after the connection failure returned %q, its own reply is %q", v, tag)
+				break
+			}
+			later = fmt.Sprintf("%d calls issued one after the other after the connection failure all failed (the last one with %v) instead of one of them succeeding on a fresh connection", attempt+1, e)
+			time.Sleep(10 * time.Millisecond)
 		}
 	}
 	// (repeatedly: a connection dialled late, e.g. the RESP2 pub/sub side connection, must go too)
@@ -450,7 +475,7 @@ func run(ci any) (res obs.Result) {
 	res.Coq = "(CRun " + obs.List(conns) + ")"
 	res.Nontrivial = faultFired
 	res.Sig = fmt.Sprint(c.Queue, c.Resp2, c.Always, c.Cache, c.G, c.Ops, c.Sub, c.Block, c.At, c.Mode)
-	res.Obs = map[string]any{"fired": faultFired, "calls": len(all), "errors": nerr, "connections": len(conns)}
+	res.Obs = map[string]any{"follow_ups": followUpsUsed, "fault_cmd": faultCmd.Load(), "fired": faultFired, "calls": len(all), "errors": nerr, "connections": len(conns)}
 	return
 }
 
